@@ -15,7 +15,8 @@ RULE = ('cases = random subset and order of (Tags, Error, Volatile, Retry) passe
         'the hierarchical classes, a state tree of 2-5 states, depth <= 3, initial children, transitions biased to '
         'siblings / parent / child, children reusing the hook name of their parent 40% (nested stream, Volatile '
         'first in the decorator) x random feature arguments (tags incl. \'accepted\', accepted flag, hook name out '
-        'of 3, custom or default volatile class, retries 0-3 with on_failure recorder, 0-2 on_enter / on_exit '
+        'of 3, custom or default volatile class, retries 0-3 with on_failure recorder, final=True on 35% of the '
+        'states independently of accepted / tags / outgoing transitions, 0-2 on_enter / on_exit '
         'recorders) x 1-3 events with condition-free transitions (reflexive 35%, internal 8%, states without outgoing '
         'transition) x 1-3 models, each hook name pre-occupied with probability 0.17 per model by an instance '
         'attribute set before the machine is attached or by an attribute of the model\'s class x histories of 1-14 '
@@ -47,7 +48,8 @@ THEOREMS = ['C19_tags', 'C19_error_iff', 'C19_retry_spec', 'C19_retry_exact', 'C
             'C19_volatile_exit_removes', 'C19_volatile_occupied', 'C19_retry_spec_occupied', 'C19_hier_flat',
             'C19_hier_fresh', 'C19_volatile_refuted_nested', 'C19_dyn_static', 'C19_error_iff_dynamic',
             'C19_has_trigger_add', 'C19_has_trigger_remove', 'C19_error_dynamic', 'C19_retry_refuted_dynamic',
-            'C19_retry_reentrant', 'C19_reentrant_static', 'C19_reentrant_prefix', 'C19_retry_reentrant_demo']
+            'C19_retry_reentrant', 'C19_reentrant_static', 'C19_reentrant_prefix', 'C19_retry_reentrant_demo',
+            'C19_error_final_independent', 'C19_final_frame']
 
 TAGS = [0, 1, 2, 3, 4]
 HOOKS = [0, 1, 2]
@@ -134,6 +136,7 @@ def gen(rng, i, tier):
             if malformed and retries > 0 and rng.random() < 0.2:
                 onf = None
         states.append(dict(id=s, given=[g_tags, g_acc, g_hook, g_retry], enter=cbs(), exit=cbs(), tags=tags,
+                           final=rng.random() < 0.35,      # State.final: must not influence any mixin
                            accepted=acc, hook=hook, vcls=vcls, retries=retries, on_failure=onf))
     ne = rng.randint(1, 3)
     trans = []
@@ -336,7 +339,8 @@ def enc(case):
             [[e, s, [] if d is None else [d]] for e, s, d in case['trans']],
             bool(case['ignore']), case['nmodels'], case['init'], [enc_hist(hc) for hc in case['history']], TAGS, HOOKS,
             paths, inits, [list(x) for x in pre], [list(x) for x in cl], len(pre) + len(cl),
-            [list(x) for x in case.get('retrig', [])]]
+            [list(x) for x in case.get('retrig', [])],
+            [s['id'] for s in build_order(case) if s.get('final')]]
 
 
 # ------------------------------------------------------------------ implementation side
@@ -400,6 +404,8 @@ def _run_machine(tr, case, decorated):
 
     def sdef(s):
         d = dict(name='s%d' % s['id'], on_enter=[rec(1, c) for c in s['enter']], on_exit=[rec(0, c) for c in s['exit']])
+        if s.get('final'):
+            d['final'] = True
         if decorated:
             g_tags, g_acc, g_hook, g_retry = s['given']
             if g_tags:
